@@ -1,5 +1,5 @@
-(* C10: witnesses of the finding classes (the unrestricted statement is false of the faithful model) and a
-   non-vacuity example (the hypotheses of the theorems hold on a non-trivial program). *)
+(* C10: witnesses of the finding classes (the unrestricted statement is false of the faithful model), the regression
+   pin of the repaired class C10-scala-package-brace and a non-vacuity example (the hypotheses of the theorems hold on a non-trivial program). *)
 From Coq Require Import List Bool String NArith.
 From TS Require Import Model.Str Model.Outcome Model.Unicode Model.Types Model.Parse Model.Lang.Common Model.Lang.Decl
                        Model.Lang.TypeScript Model.Lang.Kotlin Model.Lang.Swift Model.Lang.Scala Model.Lang.Go Model.Lang.Python.
@@ -36,15 +36,6 @@ Definition w_kt_cfg : kt_config :=
 Definition w_go_cfg : go_config :=
   {| go_package := lit "proto"; go_type_mappings := []; go_uppercase_acronyms := [lit "id"; lit "url"]; go_no_version_header := false;
      go_no_pointer_slice := false; go_version := lit "1.0.0" |}.
-
-(* Scala, a package name without a dot: the generated text closes a brace that nothing opened *)
-Lemma scala_package_brace_refuted :
-  exists cfg pd text, dom_C10 CSC pd = true /\ known_C10 CSC (sc_package cfg) pd = ["C10-scala-package-brace"%string] /\
-    sc_generate uc_exec cfg pd = Ok text /\ good_C10_lex CSC text = false.
-Proof.
-  exists (w_sc_cfg "onepassword"), (w_pd [w_struct [w_field "x" (RPrim PString) false]] [] []).
-  eexists. repeat split; vm_compute; reflexivity.
-Qed.
 
 (* Scala, serde(default) on a non-Option field: ` = _` in a case-class parameter list *)
 Lemma scala_default_refuted :
@@ -139,12 +130,33 @@ Definition w_prog : parsed := w_pd [w_struct [w_field "x" (RPrim PString) false;
 Example C10_nonvacuous :
   forallb (fun l => dom_C10 l w_prog) [CTS; CKT; CSW; CSC; CGO; CPY] = true /\
   c10_ts_cfg_ok w_ts_cfg = true /\ c10_kt_cfg_ok w_kt_cfg = true /\ c10_sc_cfg_ok (w_sc_cfg "com.x") = true /\ c10_go_cfg_ok w_go_cfg = true /\
-  c10_scala_brace_class (sc_package (w_sc_cfg "com.x")) w_prog = false /\
+  c10_sc_cfg_ok (w_sc_cfg "onepassword") = true /\ is_ok (sc_generate uc_exec (w_sc_cfg "onepassword") w_prog) = true /\
   is_ok (ts_generate uc_exec w_ts_cfg w_prog) = true /\ is_ok (kt_generate uc_exec w_kt_cfg w_prog) = true /\
   is_ok (sc_generate uc_exec (w_sc_cfg "com.x") w_prog) = true /\ is_ok (go_generate uc_exec w_go_cfg w_prog) = true /\
   c10_sw_cfg_ok w_sw_cfg = true /\ c10_py_cfg_ok w_py_cfg = true /\
   is_ok (sw_generate uc_exec w_sw_cfg w_prog) = true /\ is_ok (py_generate uc_exec w_py_cfg w_prog) = true.
 Proof. repeat split; vm_compute; reflexivity. Qed.
+
+(* Scala, a package name without a dot - the witness of the repaired finding C10-scala-package-brace (scala.rs
+   end_package / end_package_object printed `}` although begin_package / begin_package_object had opened nothing) as a
+   regression pin: the former witness now gives exactly the case class at top level, no closing brace after it, and
+   the file is balanced; a program that fills both blocks (unsigned aliases and an alias in the package object,
+   a struct and an enum in the package) is balanced too; neither is in any finding class *)
+Definition w_brace_cfg : sc_config := w_sc_cfg "onepassword".
+Definition w_brace_pd : parsed := w_pd [w_struct [w_field "x" (RPrim PString) false]] [] [].
+Definition w_brace_text : str :=
+  lit "// first line" ++ [10] ++ lit "// second line" ++ [10] ++ lit "case class A (" ++ [10] ++
+  [9] ++ lit "// a doc line with ""quotes"" and `ticks`" ++ [10] ++ [9] ++ lit "x: String" ++ [10] ++ lit ")" ++ [10] ++ [10].
+Lemma scala_package_brace_fixed :
+  c10_sc_cfg_ok w_brace_cfg = true /\ contains_char sc_ch_dot (sc_package w_brace_cfg) = false /\
+  dom_C10 CSC w_brace_pd = true /\ c10_has_items w_brace_pd = true /\ known_C10 CSC (sc_package w_brace_cfg) w_brace_pd = [] /\
+  sc_generate uc_exec w_brace_cfg w_brace_pd = Ok w_brace_text /\
+  contains_sub (lit "case class A (") w_brace_text = true /\ contains_sub (lit "}") w_brace_text = false /\
+  good_C10_lex CSC w_brace_text = true /\
+  exists text, dom_C10 CSC w_prog = true /\ known_C10 CSC (sc_package w_brace_cfg) w_prog = [] /\
+    sc_generate uc_exec w_brace_cfg w_prog = Ok text /\ contains_sub (lit "type ULong = Int") text = true /\
+    contains_sub (lit "case class A (") text = true /\ good_C10_lex CSC text = true.
+Proof. repeat split; try (vm_compute; reflexivity). eexists. repeat split; vm_compute; reflexivity. Qed.
 
 (* the whole-file theorems in the argument order of Props/C10.v *)
 Lemma lex_typescript (uc : unicode) (cfg : ts_config) (pd : parsed) (text : str) :
@@ -154,9 +166,9 @@ Lemma lex_kotlin (uc : unicode) (cfg : kt_config) (pd : parsed) (text : str) :
   c10_kt_cfg_ok cfg = true -> dom_C10 CKT pd = true -> kt_generate uc cfg pd = Ok text -> good_C10_lex CKT text = true.
 Proof. intros Hcfg Hdom H. exact (kt_generate_balanced uc cfg Hcfg pd text Hdom H). Qed.
 Lemma lex_scala (uc : unicode) (cfg : sc_config) (pd : parsed) (text : str) :
-  c10_sc_cfg_ok cfg = true -> dom_C10 CSC pd = true -> c10_scala_brace_class (sc_package cfg) pd = false ->
+  c10_sc_cfg_ok cfg = true -> dom_C10 CSC pd = true ->
   sc_generate uc cfg pd = Ok text -> good_C10_lex CSC text = true.
-Proof. intros Hcfg Hdom Hcls H. exact (sc_generate_balanced uc cfg Hcfg pd text Hdom Hcls H). Qed.
+Proof. intros Hcfg Hdom H. exact (sc_generate_balanced uc cfg Hcfg pd text Hdom H). Qed.
 Lemma lex_go (uc : unicode) (cfg : go_config) (pd : parsed) (text : str) :
   unicode_ok uc -> c10_go_cfg_ok cfg = true -> dom_C10 CGO pd = true ->
   go_generate uc cfg pd = Ok text -> good_C10_lex CGO text = true.
